@@ -134,6 +134,8 @@ impl Optimizer for LM {
             }
 
             // apply adaptive damping parameter
+            #[cfg(feature = "verif-hooks")]
+            crate::verif_hooks::tick(crate::verif_hooks::Site::LmStep);
             let mut damped = jtj.clone();
             for i in 0..param_len {
                 damped[[i, i]] += mu * jtj[[i, i]];
@@ -175,6 +177,8 @@ impl Optimizer for LM {
 
             if rho > 0. {
                 // good step, accept the new parameters and update all variables
+                #[cfg(feature = "verif-hooks")]
+                crate::verif_hooks::tick(crate::verif_hooks::Site::LmAccept);
                 params.copy_from_slice(&new_params);
 
                 let new_grad = xs
@@ -200,6 +204,8 @@ impl Optimizer for LM {
                 nu = 2.;
             } else {
                 // increase damping factor and try again with same parameters
+                #[cfg(feature = "verif-hooks")]
+                crate::verif_hooks::tick(crate::verif_hooks::Site::LmReject);
                 mu *= nu;
                 nu *= 2.;
             }
